@@ -10,7 +10,7 @@ import (
 
 func init() {
 	Props["C05"] = PropDef{
-		Explanation: "T-VARLEN decision-table extraction by evaluating the integer control skeleton at all breakpoints; T-BITFIELD disjoint ranges + group order of the 7-bit groups; loop-counter cap analysis; R-NOBUF. Decided: Len() = bytes reported by WriteToBytes = LEB128 length for every value; the unrolled encoder places group j at byte j with disjoint fields; WriteTo emits vi[:n]; decoders read at most MaxVarIntLen/MaxVarLongLen bytes through a one-byte adapter with no read-ahead. The decoded value's arithmetic is not decided.",
+		Explanation: "T-VARLEN decision-table extraction by evaluating the integer control skeleton at all breakpoints; T-BITFIELD disjoint ranges + group order of the 7-bit groups; loop-counter cap analysis; R-NOBUF; R-RAWREAD on everything the two decoders reach. Decided: Len() = bytes reported by WriteToBytes = LEB128 length for every value; the unrolled encoder places group j at byte j with disjoint fields; WriteTo emits vi[:n]; decoders read at most MaxVarIntLen/MaxVarLongLen bytes through a one-byte adapter with no read-ahead. The decoded value's arithmetic is not decided.",
 		Run: func(c *Ctx) []core.Ob {
 			obs := c.VarLen()
 			obs = append(obs, filterObs(c.BitFields("net/packet"), func(o core.Ob) bool { return strings.Contains(o.Key, "VarInt") || strings.Contains(o.Key, "VarLong") })...)
@@ -28,7 +28,7 @@ func init() {
 		},
 	}
 	Props["C14"] = PropDef{
-		Explanation: "T-REGIDX index orientation and slot offsets; R-ORDER dominance / must-follow on an inlined view (refusal, header and occupancy mirroring, Load and table loops, free-space search); R-TLG; R-TRUNC signed narrowing; R-ERRFLOW. Decided: Index orientation agrees with the file layout and both header slots are written at their offsets; the over-limit refusal dominates all mutation and bounds the packed sector count; header and occupancy stay mirrored; Load and table loops cover every entry; location fields are not sign-extended. Disjointness over histories is not decided.",
+		Explanation: "T-REGIDX index orientation and slot offsets; R-ORDER dominance / must-follow on an inlined view (refusal, header and occupancy mirroring, Load and table loops, free-space search); R-TLG; R-TRUNC signed narrowing; R-ERRFLOW; T-REGIDX slot offsets of every header-slot writer. Decided: Index orientation agrees with the file layout and both header slots are written at their offsets; the over-limit refusal dominates all mutation and bounds the packed sector count; header and occupancy stay mirrored; Load and table loops cover every entry; location fields are not sign-extended. Disjointness over histories is not decided.",
 		Run: func(c *Ctx) []core.Ob {
 			obs := c.RegionIndex()
 			obs = append(obs, c.RegionOrder()...)
@@ -43,7 +43,7 @@ func init() {
 		},
 	}
 	Props["C15"] = PropDef{
-		Explanation: "R-ORIGIN who-may-write + value-origin of the seek target; R-ORDER header / occupancy mirroring, Load, free-space search. Decided: No physical write of WriteSector is addressed by anything but this chunk's own slot and run; every change of the occupancy map is mirrored to the header. That the chosen run is free in every reachable state / crash prefix is not decided.",
+		Explanation: "R-ORIGIN who-may-write + value-origin of the seek target; R-ORDER header / occupancy mirroring, Load, free-space search; Load gives up only on a failed read, not on what an entry says. Decided: No physical write of WriteSector is addressed by anything but this chunk's own slot and run; every change of the occupancy map is mirrored to the header. That the chosen run is free in every reachable state / crash prefix is not decided.",
 		Run: func(c *Ctx) []core.Ob {
 			obs := c.RegionOrigin()
 			for _, o := range c.RegionOrder() {
@@ -71,7 +71,7 @@ func init() {
 		},
 	}
 	Props["C18"] = PropDef{
-		Explanation: "R-POLARITY; R-ORIGIN (embedded key, immutable trust anchor, NameToUUID inputs); R-ORDER writers closed inside-out, ripple carry; R-TRUNC copy-into-fixed; T-BITFIELD. Decided: A true verdict only when RSA verification succeeded against the embedded key, which nothing reassigns; the offline UUID hashes the whole name; the two's-complement carry is taken from the right side of the increment in both copies. Digest values are not decided.",
+		Explanation: "R-POLARITY; R-ORIGIN (embedded key, immutable trust anchor, NameToUUID inputs); R-ORDER writers closed inside-out, ripple carry; R-TRUNC copy-into-fixed; T-BITFIELD; R-ORDER negation carries through the bytes. Decided: A true verdict only when RSA verification succeeded against the embedded key, which nothing reassigns; the offline UUID hashes the whole name; the two's-complement carry is taken from the right side of the increment in both copies. Digest values are not decided.",
 		Run: func(c *Ctx) []core.Ob {
 			obs := c.SignaturePolarity()
 			obs = append(obs, c.OfflineUUIDInputs()...)
